@@ -144,6 +144,12 @@ func (t *table) handlerGen(idx int, gen int) httpd.HandlerFunc {
 			s.P = &httpd.Params{K: append([]string(nil), s.P.K...), V: append([]string(nil), s.P.V...)}
 		}
 		rec.In = takeSnap(t, s)
+		if s.R.Header.Get("X-Append") != "" {
+			// a handler (or a middleware in front of the real one) that attaches a parameter of its own to the request's
+			// Params - a computed tenant, a default - for code further down; the Params are this request's
+			s.P.K = append(s.P.K, "zz-attached")
+			s.P.V = append(s.P.V, "by-the-handler")
+		}
 		if s.R.Header.Get("X-Panic") != "" {
 			panic(panicMarker{idx})
 		}
@@ -248,6 +254,7 @@ type request struct {
 	writes       bool
 	forward      *request // the handler forwards this request through the same Mux first (Store.W as the writer)
 	swap         string   // "", "W", "P", "WP": the handler replaces Store.W / Store.P by objects of its own
+	appends      bool     // the handler appends a parameter of its own to Store.P
 	clientTag    string   // the request carries request-id / tracing headers with this value
 	firstReaders int      // that many goroutines of the request ask for its ID at once, before anybody else does
 }
@@ -283,6 +290,9 @@ func (t *table) serve(rq request) (rec *record, escaped any) {
 	}
 	if rq.firstReaders > 0 {
 		req.Header.Set("X-First-ID-Readers", strconv.Itoa(rq.firstReaders))
+	}
+	if rq.appends {
+		req.Header.Set("X-Append", "1")
 	}
 	if rq.clientTag != "" {
 		// what a client, a proxy or a tracing library puts on a request: the Store's ID is the Mux's own all the same
@@ -506,6 +516,10 @@ func runMachine(t *rapid.T, concurrent bool) {
 		if rapid.IntRange(0, 5).Draw(t, "swaps") == 0 {
 			rq.swap = rapid.SampledFrom([]string{"W", "P", "WP"}).Draw(t, "swap")
 			ev.Label("request:handler_replaces_Store_W_or_P")
+		}
+		if rq.swap == "" && rapid.IntRange(0, 4).Draw(t, "appends") == 0 {
+			rq.appends = true
+			ev.Label("request:handler_appends_a_parameter_of_its_own")
 		}
 		if rapid.IntRange(0, 4).Draw(t, "tagged") == 0 {
 			rq.clientTag = rapid.SampledFrom([]string{"client-retry-1", "client-retry-1", "00-4bf92f3577b34da6a3ce929d0e0e4736-00f067aa0ba902b7-01", "x"}).Draw(t, "clientTag")
